@@ -55,7 +55,7 @@ Lemma sim_dstep e s gf : R2 s gf ->
   fst (dstep Fixed e s) = fst (dsstep e gf) /\ R2 (snd (dstep Fixed e s)) (snd (dsstep e gf)).
 Proof.
   destruct gf as [g f]. intros [HR Hf]. cbn [fst snd] in HR, Hf.
-  destruct e as [e| | | | |n pents]; cbn [dstep dsstep].
+  destruct e as [e| | | | |n pents|he]; cbn [dstep dsstep].
   - (* a request *)
     destruct (sim_step e s g HR) as [H1 H2]. pose proof (timers_step e s g HR) as Ht.
     destruct (sstep e g) as [r g1]. cbn [fst snd] in *. split; [assumption|]. split; [assumption|].
@@ -108,6 +108,14 @@ Proof.
     + rewrite Ht in Hx. discriminate.
     + discriminate.
     + apply (Hf x). rewrite <- Ht. assumption.
+  - (* a request sent by a job's HTTP sink *)
+    destruct (sim_step he s g HR) as [H1 H2]. pose proof (timers_step he s g HR) as Ht.
+    destruct (step Fixed he s) as [r0 s1]. destruct (sstep he g) as [r g1]. cbn [fst snd] in *. subst r0.
+    split; [reflexivity|]. split; [assumption|].
+    cbn [snd]. intros x b Hx. destruct Ht as [Ht|[[Hre (y & Ht)]|[Hre Ht]]].
+    + rewrite Ht in Hx. discriminate.
+    + rewrite Ht in Hx. injection Hx as _ <-. rewrite Hre, orb_true_r. reflexivity.
+    + rewrite Hre, orb_false_r. apply (Hf x). rewrite <- Ht. assumption.
 Qed.
 
 Lemma predict_spredict h : forall s gf, R2 s gf -> predict_from Fixed h s = spredict_from h gf.
